@@ -121,7 +121,7 @@ func (c *Ctx) roles() *Roles {
 		r.CL = append(r.CL, r.Runnable...)
 	}
 	if add := c.Method("", "clientRoutinePool", "add"); add != nil {
-		r.CL = append(r.CL, add.AnonFuncs...)
+		r.CL = append(r.CL, goBodies(c, add)...)
 	} else {
 		r.problems = append(r.problems, "(*clientRoutinePool).add not found")
 	}
@@ -213,8 +213,8 @@ func init() {
 				r.undecided("only %d writer entry points (floor 7: 6 Write* + Close)", len(ro.W))
 			}
 			// runnables reachable from the goroutine body of add
-			if add := c.Method("", "clientRoutinePool", "add"); add != nil && len(add.AnonFuncs) == 1 {
-				rr := c.reach(add.AnonFuncs, nil)
+			if add := c.Method("", "clientRoutinePool", "add"); add != nil && len(goBodies(c, add)) >= 1 {
+				rr := c.reach(goBodies(c, add), nil)
 				for _, run := range ro.Runnable {
 					key := "runnable|" + FuncName(run)
 					if rr[run] {
@@ -224,7 +224,7 @@ func init() {
 					}
 				}
 			} else {
-				r.undecided("clientRoutinePool.add does not have exactly one goroutine body")
+				r.undecided("clientRoutinePool.add starts no goroutine")
 			}
 			return r
 		})
@@ -236,4 +236,17 @@ func callerNames(c *Ctx, fn *ssa.Function) string {
 		seen[FuncName(e.Caller.Func)] = true
 	}
 	return strings.Join(sortedKeys(seen), ", ")
+}
+
+// goBodies returns the functions started by the go statements of fn.
+func goBodies(c *Ctx, fn *ssa.Function) []*ssa.Function {
+	var out []*ssa.Function
+	allInstrs(fn, func(in ssa.Instruction) {
+		if g, ok := in.(*ssa.Go); ok {
+			for _, f := range c.calleesOf(g) {
+				out = append(out, f)
+			}
+		}
+	})
+	return out
 }
